@@ -1,66 +1,24 @@
 (* ImpFacts7.v — the 7-bit packed-length reader and writer of src/internals.c, as translated into
    Gen/Prog.v on every run, compute the model's read_7bit / enc7 (Prim.v): for every byte stream
    (hostile ones included) and for every int and every output budget. *)
-From Sbdf Require Import Imp Gen.Prog Gen.Consts Base Prim BaseFacts ImpFacts.
+From Sbdf Require Import Imp Gen.Prog Gen.Consts Base Prim BaseFacts ImpBase.
 From Coq Require Import ZifyBool.
 Local Open Scope Z_scope.
 Ltac Zify.zify_post_hook ::= Z.div_mod_to_equations.
 
-(* ---- bit facts ---- *)
-Lemma testbit_small a n : 0 <= a < 2 ^ n -> 0 <= n -> Z.testbit a n = false.
-Proof.
-  intros Ha Hn. destruct (Z.eq_dec a 0) as [->|Ne]; [apply Z.bits_0|].
-  apply Z.bits_above_log2; [lia|]. apply Z.log2_lt_pow2; lia.
-Qed.
 
-Lemma land_low_mul a c k : 0 <= a < 2 ^ k -> 0 <= k -> Z.land a (c * 2 ^ k) = 0.
-Proof.
-  intros Ha Hk. apply Z.bits_inj'. intros n Hn. rewrite Z.land_spec, Z.bits_0.
-  destruct (Z_lt_le_dec n k) as [L|L].
-  - rewrite Z.mul_pow2_bits_low by lia. apply andb_false_r.
-  - rewrite (testbit_small a n); [reflexivity| |lia]. split; [lia|]. apply Z.lt_le_trans with (2 ^ k); [lia|]. apply Z.pow_le_mono_r; lia.
-Qed.
 
-Lemma lor_disjoint_add a c k : 0 <= a < 2 ^ k -> 0 <= k -> Z.lor a (c * 2 ^ k) = a + c * 2 ^ k.
-Proof.
-  intros Ha Hk. pose proof (land_low_mul a c k Ha Hk) as H.
-  rewrite <- Z.lxor_lor by exact H. symmetry. now apply Z.add_nocarry_lxor.
-Qed.
 
-Definition byte7_ok (b : Z) : bool := (Z.land b 127 =? b mod 128) && Bool.eqb (Z.land b 128 =? 128) (128 <=? b) && (0 <=? Z.land b 128) && (Z.land b 128 <=? 128).
-Lemma byte7_all : forallb byte7_ok (map Z.of_nat (seq 0 256)) = true.
-Proof. vm_compute. reflexivity. Qed.
-Lemma byte7 b : 0 <= b <= 255 -> Z.land b 127 = b mod 128 /\ (Z.land b 128 =? 128) = (128 <=? b) /\ 0 <= Z.land b 128 <= 128.
-Proof.
-  intros H. pose proof byte7_all as A. rewrite forallb_forall in A.
-  assert (S : byte7_ok b = true) by (apply A; apply in_map_iff; exists (Z.to_nat b); split; [lia|apply in_seq; lia]).
-  unfold byte7_ok in S. repeat (apply andb_true_iff in S; destruct S as [S ?]). match goal with H : Bool.eqb _ _ = true |- _ => apply Bool.eqb_prop in H end. repeat split; try assumption; lia.
-Qed.
 
-Definition byte (b : Z) : Prop := 0 <= b <= 255.
 
 (* ================================================================== the reader *)
 Definition rst (r k : Z) (u o : val) (B : Z) (s : list Z) : state :=
   {| vars := [("f"%string, VNull); ("v"%string, VNull); ("result"%string, VInt r); ("shl"%string, VInt k); ("uch"%string, u);
               ("*v"%string, o); (budget_var, VInt B)]; inb := s; outb := [] |}.
 
-Ltac ev7 := cbn [eval lookup update set_var String.eqb Ascii.eqb Bool.eqb vars inb outb truth cast binop_int binop_uint is_shift b2z fst snd negb budget_var];
-  change (0 =? 0) with true; change (1 =? 0) with false; cbn [negb b2z].
-Ltac chk7 := rewrite ?chk_ok by (unfold int_min, int_max in *; lia); rewrite ?wrap_id by (unfold int_min, int_max in *; lia).
-Ltac evs7 := ev7; chk7; ev7; chk7; ev7; chk7; ev7.
 
-Lemma pow7_bounds j : (j <= 4)%nat -> 1 <= 2 ^ (7 * Z.of_nat j) <= 268435456.
-Proof.
-  intros H. assert (C : (j = 0 \/ j = 1 \/ j = 2 \/ j = 3 \/ j = 4)%nat) by lia.
-  destruct C as [->|[->|[->|[->| ->]]]]; cbn; lia.
-Qed.
 
-Lemma guard_ok x y sh : 0 <= x < u32 -> (0 <= y < u32 \/ sh = true) ->
-  (0 <=? x) && (x <? u32) && ((0 <=? y) && (y <? u32) || sh) = true.
-Proof. intros Hx [Hy| ->]; [|rewrite orb_true_r]; lia. Qed.
 
-Lemma shguard_ok k : 0 <= k < 32 -> (0 <=? k) && (k <? 32) = true.
-Proof. lia. Qed.
 
 Lemma r_next r k b : 0 <= k <= 28 -> 0 <= r < 2 ^ k -> 0 <= b <= 255 ->
   0 <= r + to_u32 (b mod 128 * 2 ^ k) < u32 /\ (k <= 21 -> r + to_u32 (b mod 128 * 2 ^ k) < 2 ^ (k + 7)).
@@ -83,7 +41,6 @@ Proof.
   split; [lia|]. intros _. rewrite Z.pow_add_r by lia. change (2 ^ 7) with 128. lia.
 Qed.
 
-Definition body_of (st : stmt) : stmt := match st with SWhile _ b => b | _ => SSkip end.
 
 Lemma read7_step f r k b s : read7_loop (S f) r k (b :: s) =
   if 128 <=? b then (if 28 <? k + 7 then Err SBDF_ERROR_INVALID_SIZE else read7_loop f (r + to_u32 (b mod 128 * 2 ^ k)) (k + 7) s)
@@ -169,8 +126,6 @@ Proof.
     + destruct Q as (st' & Bs). exists st'. eapply bs_while_t; [ev7; reflexivity|reflexivity|exact It|exact Bs].
 Qed.
 
-Definition io_init (f : func) (args : list val) (input : list Z) (budget : Z) : state :=
-  {| vars := combine (fparams f) args ++ map (fun x => (x, VUndef)) (flocals f) ++ [(budget_var, VInt budget)]; inb := input; outb := [] |}.
 
 Theorem read7_bs s B : Forall byte s ->
   match read_7bit s with
@@ -200,117 +155,6 @@ Proof.
     eapply bs_seq_ret. exact Bs.
 Qed.
 
-(* ================================================================== the writer *)
-Definition wst (v x : Z) (u : Imp.val) (B : Z) (o : list Z) : state :=
-  {| vars := [("f"%string, VNull); ("v"%string, VInt v); ("uch"%string, u); ("val"%string, VInt x); (budget_var, VInt B)]; inb := []; outb := o |}.
-
-Definition loop2 (st : stmt) : stmt := match st with SSeq _ (SSeq w _) => w | _ => SSkip end.
-
-Lemma enc7_step f x : enc7_loop (S f) x = if 127 <? x then (x mod 128 + 128) :: enc7_loop f (x / 128) else [x].
-Proof. reflexivity. Qed.
-
-Lemma land127 x : 0 <= x -> Z.land x 127 = x mod 128.
-Proof. intros H. change 127 with (Z.ones 7). rewrite Z.land_ones by lia. reflexivity. Qed.
-
-Lemma write7_iter v x u B o : 0 <= x < u32 -> 0 <= B ->
-  let byte := if 127 <? x then x mod 128 + 128 else x in
-  bs (body_of (loop2 (fbody prog_sbdf_write_7bitpacked_int32))) (wst v x u B o)
-     (if 0 <? B then (if 127 <? x then ONormal (wst v (x / 128) (VInt byte) (B - 1) (o ++ [byte]))
-                      else OBreak (wst v x (VInt byte) (B - 1) (o ++ [byte])))
-      else OReturn (VInt SBDF_ERROR_IO) (wst v x (VInt byte) B o)).
-Proof.
-  intros Hx HB byte. cbn [body_of loop2 fbody prog_sbdf_write_7bitpacked_int32].
-  pose proof (land127 x ltac:(lia)) as L7.
-  assert (Hm : 0 <= x mod 128 < 128) by lia.
-  assert (Lor : Z.lor (x mod 128) 128 = x mod 128 + 128).
-  { change 128 with (1 * 2 ^ 7) at 2 3. apply lor_disjoint_add; [change (2 ^ 7) with 128; lia|lia]. }
-  assert (G : (x >? 127) = (127 <? x)) by lia.
-  unfold wst.
-  eapply bs_seq.
-  { eapply bs_decl1; [evs7; rewrite (Z.mod_small 127 u32) by (unfold u32; lia);
-      rewrite guard_ok by (unfold u32 in *; lia); ev7; rewrite L7, (Z.mod_small (x mod 128) 256) by lia; reflexivity|ev7; reflexivity]. }
-  destruct (127 <? x) eqn:E.
-  - eapply bs_seq.
-    { eapply bs_if; [evs7; rewrite (Z.mod_small 127 u32) by (unfold u32; lia); rewrite guard_ok by (unfold u32 in *; lia); ev7; rewrite G; reflexivity|reflexivity|].
-      eapply bs_expr. evs7. rewrite Lor, (Z.mod_small (x mod 128 + 128) 256) by lia. reflexivity. }
-    destruct (0 <? B) eqn:EB.
-    + eapply bs_seq; [eapply bs_if; [evs7; rewrite EB; ev7; reflexivity|reflexivity|apply bs_skip]|].
-      eapply bs_if; [evs7; rewrite (Z.mod_small 127 u32) by (unfold u32; lia); rewrite guard_ok by (unfold u32 in *; lia); ev7; rewrite G; reflexivity|reflexivity|].
-      eapply bs_expr. evs7. rewrite guard_ok by (unfold u32 in *; lia). rewrite shguard_ok by lia. ev7.
-      rewrite Z.shiftr_div_pow2 by lia. change (2 ^ 7) with 128. unfold byte. rewrite (Z.mod_small (x mod 128 + 128) 256) by lia. reflexivity.
-    + eapply bs_seq_ret. eapply bs_if; [evs7; rewrite EB; ev7; reflexivity|reflexivity|]. eapply bs_return. evs7. reflexivity.
-  - eapply bs_seq.
-    { eapply bs_if; [evs7; rewrite (Z.mod_small 127 u32) by (unfold u32; lia); rewrite guard_ok by (unfold u32 in *; lia); ev7; rewrite G; reflexivity|reflexivity|]. apply bs_skip. }
-    assert (Ex : x mod 128 = x) by lia. rewrite Ex.
-    destruct (0 <? B) eqn:EB.
-    + eapply bs_seq; [eapply bs_if; [evs7; rewrite EB; ev7; reflexivity|reflexivity|apply bs_skip]|].
-      eapply bs_seq_brk || idtac.
-      eapply bs_if; [evs7; rewrite (Z.mod_small 127 u32) by (unfold u32; lia); rewrite guard_ok by (unfold u32 in *; lia); ev7; rewrite G; reflexivity|reflexivity|].
-      unfold byte. rewrite (Z.mod_small x 256) by lia. apply bs_break.
-    + eapply bs_seq_ret. eapply bs_if; [evs7; rewrite EB; ev7; reflexivity|reflexivity|]. eapply bs_return. evs7. reflexivity.
-Qed.
-
-Lemma ztake_cons_pos {A} (b : A) l n : 0 < n -> ztake n (b :: l) = b :: ztake (n - 1) l.
-Proof. intros H. unfold ztake. replace (Z.to_nat n) with (S (Z.to_nat (n - 1))) by lia. reflexivity. Qed.
-
-Lemma wst_ext v x u B o v' x' u' B' o' : v = v' -> x = x' -> u = u' -> B = B' -> o = o' -> wst v x u B o = wst v' x' u' B' o'.
-Proof. now intros -> -> -> -> ->. Qed.
-
-Lemma write7_loop_prog n : forall v x u B o, 0 <= x < 2 ^ (7 * Z.of_nat (S n)) -> x < u32 -> 0 <= B ->
-  let L := enc7_loop (S n) x in
-  if zlen L <=? B
-  then exists x' u', bs (loop2 (fbody prog_sbdf_write_7bitpacked_int32)) (wst v x u B o) (ONormal (wst v x' u' (B - zlen L) (o ++ L)))
-  else exists st', bs (loop2 (fbody prog_sbdf_write_7bitpacked_int32)) (wst v x u B o) (OReturn (VInt SBDF_ERROR_IO) st') /\ outb st' = o ++ ztake B L.
-Proof.
-  induction n as [|n IH]; intros v x u B o Hx Hu HB; cbn zeta; rewrite enc7_step.
-  all: pose proof (write7_iter v x u B o ltac:(lia) HB) as It; cbn zeta in It;
-       cbn [body_of loop2 fbody prog_sbdf_write_7bitpacked_int32] in *.
-  all: destruct (127 <? x) eqn:E.
-  1: { exfalso. change (2 ^ (7 * Z.of_nat 1)) with 128 in Hx. lia. }
-  1,3: change (zlen [x]) with 1; destruct (0 <? B) eqn:EB;
-       [ replace (1 <=? B) with true by lia; eexists; eexists; eapply bs_while_brk; [ev7; reflexivity|reflexivity|exact It]
-       | replace (1 <=? B) with false by lia; eexists; split; [eapply bs_while_ret; [ev7; reflexivity|reflexivity|exact It]|];
-         cbn [outb wst]; assert (B = 0) by lia; subst B; cbn; now rewrite app_nil_r ].
-  (* a continuation byte first *)
-  set (b := x mod 128 + 128) in *. set (L' := enc7_loop (S n) (x / 128)) in *. rewrite zlen_cons.
-  pose proof (zlen_nonneg L') as P0.
-  destruct (0 <? B) eqn:EB.
-  2: { replace (1 + zlen L' <=? B) with false by lia. eexists. split; [eapply bs_while_ret; [ev7; reflexivity|reflexivity|exact It]|].
-       cbn [outb wst]. assert (B = 0) by lia. subst B. cbn. now rewrite app_nil_r. }
-  assert (Hx' : 0 <= x / 128 < 2 ^ (7 * Z.of_nat (S n))).
-  { replace (7 * Z.of_nat (S (S n))) with (7 * Z.of_nat (S n) + 7) in Hx by lia. rewrite Z.pow_add_r in Hx by lia. change (2 ^ 7) with 128 in Hx.
-    split; [apply Z.div_pos; lia|]. apply Z.div_lt_upper_bound; lia. }
-  pose proof (IH v (x / 128) (VInt b) (B - 1) (o ++ [b]) Hx' ltac:(unfold u32 in *; lia) ltac:(lia)) as Q. cbn zeta in Q. fold L' in Q.
-  destruct (zlen L' <=? B - 1) eqn:EL.
-  - replace (1 + zlen L' <=? B) with true by lia. destruct Q as (x' & u' & Bs). exists x', u'.
-    eapply bs_while_t; [ev7; reflexivity|reflexivity|exact It|].
-    eapply bs_cast; [exact Bs|reflexivity|]. apply (f_equal ONormal). apply wst_ext; try reflexivity; [lia|now rewrite <- app_assoc].
-  - replace (1 + zlen L' <=? B) with false by lia. destruct Q as (st' & Bs & Eo). exists st'. split.
-    + eapply bs_while_t; [ev7; reflexivity|reflexivity|exact It|exact Bs].
-    + rewrite Eo, <- app_assoc. cbn [app]. now rewrite ztake_cons_pos by lia.
-Qed.
-
-Theorem write7_bs v B : int_min <= v <= int_max -> 0 <= B ->
-  exists fin, bs (fbody prog_sbdf_write_7bitpacked_int32) (io_init prog_sbdf_write_7bitpacked_int32 [VNull; VInt v] [] B)
-                 (OReturn (VInt (if zlen (enc7 v) <=? B then SBDF_OK else SBDF_ERROR_IO)) fin) /\
-              outb fin = ztake B (enc7 v).
-Proof.
-  intros Hv HB. unfold enc7.
-  assert (Hu : 0 <= to_u32 v < u32) by (unfold to_u32, u32; lia).
-  pose proof (write7_loop_prog 4 v (to_u32 v) VUndef B [] ltac:(change (2 ^ (7 * Z.of_nat 5)) with 34359738368; unfold u32 in Hu; lia) ltac:(lia) HB) as L.
-  cbn zeta in L. cbn [loop2 fbody prog_sbdf_write_7bitpacked_int32] in L.
-  unfold io_init. cbn [fbody fparams flocals prog_sbdf_write_7bitpacked_int32 combine map app].
-  destruct (zlen (enc7_loop 5 (to_u32 v)) <=? B) eqn:E.
-  - destruct L as (x' & u' & Bs). eexists. split.
-    + eapply bs_seq; [eapply bs_decl1; [evs7; reflexivity|ev7; reflexivity]|].
-      eapply bs_seq; [exact Bs|]. eapply bs_return. unfold wst. evs7. reflexivity.
-    + cbn [outb wst app]. rewrite ztake_all by lia. reflexivity.
-  - destruct L as (st' & Bs & Eo). exists st'. split.
-    + eapply bs_seq; [eapply bs_decl1; [evs7; reflexivity|ev7; reflexivity]|]. eapply bs_seq_ret. exact Bs.
-    + rewrite Eo. reflexivity.
-Qed.
-
-(* ---- with the interpreter's fuel: for all large enough fuel the call returns exactly that ---- *)
 Theorem read7_correct s B : Forall byte s ->
   exists f0, forall f, (f0 <= f)%nat ->
   match read_7bit s with
@@ -323,13 +167,4 @@ Proof.
   - destruct H as (fin & Bs & H1 & H2 & H3). destruct (bs_sound _ _ _ Bs) as (f0 & F). exists f0. intros f Hf. exists fin.
     split; [apply F; exact Hf|]. auto.
   - destruct H as (fin & Bs). destruct (bs_sound _ _ _ Bs) as (f0 & F). exists f0. intros f Hf. exists fin. apply F; exact Hf.
-Qed.
-
-Theorem write7_correct v B : int_min <= v <= int_max -> 0 <= B ->
-  exists f0, forall f, (f0 <= f)%nat -> exists fin,
-    call_io f prog_sbdf_write_7bitpacked_int32 [VNull; VInt v] [] B = OReturn (VInt (if zlen (enc7 v) <=? B then SBDF_OK else SBDF_ERROR_IO)) fin /\
-    outb fin = ztake B (enc7 v).
-Proof.
-  intros Hv HB. destruct (write7_bs v B Hv HB) as (fin & Bs & Eo). destruct (bs_sound _ _ _ Bs) as (f0 & F).
-  exists f0. intros f Hf. exists fin. split; [apply F; exact Hf|exact Eo].
 Qed.
